@@ -86,7 +86,7 @@ def _decode_printed(line):
 
 def tlc(module_dir, module, cfg, workers=8, simulate=None, depth=None, coverage=True,
         timeout=1800, env=None, props=None, tag=None, deadlock=False, heap="6g", dfs=False,
-        collect=True, sink=None):
+        collect=True, sink=None, library=None):
     """Run TLC on `module` (in spec/<module_dir>) with config `cfg`.
 
     simulate: None for exhaustive BFS, or number of behaviours for -simulate.
@@ -103,6 +103,8 @@ def tlc(module_dir, module, cfg, workers=8, simulate=None, depth=None, coverage=
     jopts = ["-XX:+UseParallelGC", "-Xmx" + heap, "-Xss1g", "-Djava.io.tmpdir=" + tmp]
     if dfs:
         jopts.append("-Dtlc2.tool.queue.IStateQueue=StateDeque")
+    if library:
+        jopts.append("-DTLA-Library=" + library)
     if props:
         for k, v in props.items():
             jopts.append("-D%s=%s" % (k, v))
@@ -444,3 +446,45 @@ def dv(args, input=None, timeout=3600, env=None, check=True):
     if check and p.returncode != 0:
         raise ToolError("dv %s failed rc=%d\n%s\n%s" % (args[:2], p.returncode, p.stdout[-2000:], p.stderr[-4000:]))
     return p
+
+
+# ------------------------------------------------------------------ bridge crates --------------
+
+def build_bridge(name, lib_rs, extra_files=None, timeout=900):
+    """Create work/bridge/<name> (staticlib+rlib, real proc macro + runtime from REPO) and cargo build it.
+    Returns dict(ok, stderr, staticlib)."""
+    d = ensure(os.path.join(WORK, "bridge", name))
+    ensure(os.path.join(d, "src"))
+    ensure(os.path.join(d, ".cargo"))
+    open(os.path.join(d, "Cargo.toml"), "w").write(
+        '[package]\nname = "%s"\nversion = "0.1.0"\nedition = "2021"\n[workspace]\n[lib]\ncrate-type = ["staticlib", "rlib"]\n'
+        '[dependencies]\ndiplomat = { path = "%s/macro" }\ndiplomat-runtime = { path = "%s/runtime" }\n'
+        '[profile.dev]\ndebug = 1\nopt-level = 0\npanic = "abort"\n' % (name, REPO, REPO))
+    open(os.path.join(d, ".cargo", "config.toml"), "w").write('[net]\noffline = true\n[build]\ntarget-dir = "../../btarget"\n')
+    lock = os.path.join(d, "Cargo.lock")
+    if not os.path.exists(lock):
+        shutil.copy(os.path.join(REPO, "Cargo.lock"), lock)
+    path = os.path.join(d, "src", "lib.rs")
+    old = open(path).read() if os.path.exists(path) else None
+    if old != lib_rs:
+        open(path, "w").write(lib_rs)
+    for fn, text in (extra_files or {}).items():
+        ensure(os.path.dirname(os.path.join(d, fn)))
+        open(os.path.join(d, fn), "w").write(text)
+    p = sh(["cargo", "build", "--offline", "--lib"], cwd=d, env=cargo_env(), timeout=timeout)
+    return {"ok": p.returncode == 0, "stderr": p.stderr, "dir": d,
+            "staticlib": os.path.join(WORK, "btarget", "debug", "lib%s.a" % name)}
+
+
+def nm_defined(staticlib):
+    """Defined text symbols of a staticlib that do not belong to std/runtime internals."""
+    p = sh(["nm", "--defined-only", "-g", staticlib], check=True)
+    syms = set()
+    for line in p.stdout.splitlines():
+        parts = line.split()
+        if len(parts) == 3 and parts[1] in ("T", "t"):
+            s = parts[2]
+            if s.startswith("_ZN") or s.startswith("_R") or s.startswith("__") or s.startswith("rust_") or s.startswith("_Z"):
+                continue
+            syms.add(s)
+    return syms
